@@ -186,4 +186,12 @@ pub trait MetadataClient: Send + Sync {
     async fn has_active_split(&self) -> Result<bool> {
         Ok(false) // Default: no splits active
     }
+
+    /// New (target) shards of every split currently in its dual-write or backfill phase.
+    ///
+    /// Until cut-over, the chunks of these shards only hold copies of rows that are also
+    /// stored in the old shard; readers skip them so that each row is read once.
+    async fn active_split_new_shards(&self) -> Result<Vec<String>> {
+        Ok(Vec::new()) // Default: no splits active
+    }
 }
